@@ -834,6 +834,10 @@ impl<C: Ctxt> Ctxt for TraceparentCtxt<C> {
         let (slot, props) =
             incoming_traceparent(None::<fn(&SpanCtxt) -> bool>, props, TraceFlags::ALL);
 
+        // If the props don't carry a span context of their own then carry the current one,
+        // so it's still there if the frame is entered on another thread
+        let slot = slot.or_else(get_active_traceparent);
+
         let inner = self.inner.open_push(props);
 
         TraceparentCtxtFrame {
@@ -846,6 +850,9 @@ impl<C: Ctxt> Ctxt for TraceparentCtxt<C> {
     fn open_disabled<P: Props>(&self, props: P) -> Self::Frame {
         let (slot, props) =
             incoming_traceparent(None::<fn(&SpanCtxt) -> bool>, props, TraceFlags::EMPTY);
+
+        // See the note in `open_push`
+        let slot = slot.or_else(get_active_traceparent);
 
         let inner = self.inner.open_disabled(props);
 
